@@ -3,6 +3,8 @@
 # quick checks, undo.
 DIR="$1"; ID="${DIR:0:3}"; shift     # seeded/<DIR> (e.g. C03 or C03b); the property is its first three characters
 P=/verif/seeded/$DIR/patch.diff
+# a change that no longer applies because a later fix: commit touched the same lines is kept re-based by hand
+[ -f /verif/seeded/$DIR/patch_rebased.diff ] && P=/verif/seeded/$DIR/patch_rebased.diff
 cd /verif
 git -C /repo apply "$P" || { echo "$DIR: patch does not apply to /repo"; exit 1; }
 for c in $ID "$@"; do
